@@ -451,7 +451,7 @@ int main(int argc, char **argv) {
   quiet_crab();
   bool th = vp::args().thorough();
   std::string only = vp::args().opt.count("domains") ? vp::args().opt["domains"] : "";
-  int depth_core = vp::args().opt.count("depth-core") ? atoi(vp::args().opt["depth-core"].c_str()) : 4;
+  int depth_core = vp::args().opt.count("depth-core") ? atoi(vp::args().opt["depth-core"].c_str()) : (th ? 5 : 4);
   int depth_ext = vp::args().opt.count("depth-ext") ? atoi(vp::args().opt["depth-ext"].c_str()) : 3;
   build_alphabet(th);
 
